@@ -129,10 +129,13 @@ func (tree *Rtree) chooseNode(n *node, e entry, level int) *node {
 	diff := math.MaxFloat64
 	var chosen entry
 	var bb geom.Bounds
-	for _, en := range n.entries {
+	for i, en := range n.entries {
 		initBoundingBox(&bb, en.bb, e.bb)
 		d := size(&bb) - size(en.bb)
-		if d < diff || (d == diff && size(en.bb) < size(chosen.bb)) {
+		// The first entry is always a candidate: the enlargement is NaN or
+		// +Inf for every entry when the areas overflow or the boxes are
+		// empty (infinite corners), and no entry would be chosen at all.
+		if i == 0 || d < diff || (d == diff && size(en.bb) < size(chosen.bb)) {
 			diff = d
 			chosen = en
 		}
